@@ -239,7 +239,7 @@ pub fn prec_stream() -> Vec<TextCase> {
         if o1 == "contains" || o1 == "in" {
             continue;
         }
-        for n in [17usize, 33, 70] {
+        for n in [17usize, 33, 70, 129, 257, 520] {
             t.push((0..n).map(|i| format!("a{}", i)).collect::<Vec<_>>().join(&format!(" {} ", o1)));
         }
     }
@@ -248,6 +248,15 @@ pub fn prec_stream() -> Vec<TextCase> {
     }
     t.push(format!("{}a", "- ! ".repeat(20)));
     t.push(format!("a{}", ".b.0".repeat(20)));
+    for n in [130usize, 260, 520] {
+        t.push(format!("{}a", "!".repeat(n)));
+        t.push(format!("{}a", "- ".repeat(n)));
+        t.push(format!("a{}", ".b".repeat(n)));
+        t.push(format!("a{}", ".0".repeat(n)));
+        t.push(format!("{}a{}", "(".repeat(n), ")".repeat(n)));
+        t.push(format!("{}a{}", "[".repeat(n), "]".repeat(n)));
+        t.push(format!("{}a{}", "int(".repeat(n), ")".repeat(n)));
+    }
     // every reserved word of the crate (whether or not the lexer has a token for it) and a few near-misses, in every
     // position a name can stand in
     for w in [
@@ -277,10 +286,30 @@ pub fn prec_stream() -> Vec<TextCase> {
                 }
             }
         }
+        // the reserved words in other letter cases (only the exact lower-case spelling is reserved)
+        for k in ["and", "or", "if", "then", "else", "is_some", "is_none", "some", "none", "int", "float", "dec", "true", "false", "contains", "in", "date_time", "datetime", "duration", "to_upper", "to_lower", "uppercase", "lowercase", "trim", "round", "floor", "fract", "year", "month", "week", "day", "hour", "minute", "second"] {
+            words.insert(k.to_uppercase());
+            let mut c = k.chars();
+            let first = c.next().unwrap().to_uppercase().collect::<String>();
+            words.insert(format!("{}{}", first, c.as_str()));
+            words.insert(k.chars().enumerate().map(|(i, ch)| if i % 2 == 1 { ch.to_ascii_uppercase() } else { ch }).collect());
+            // CamelCase of the Expr variant names
+            words.insert(k.split('_').map(|part| { let mut c = part.chars(); match c.next() { Some(f) => format!("{}{}", f.to_uppercase(), c.as_str()), None => String::new() } }).collect::<String>());
+        }
         for w in words {
             for form in ["{w}", "{w}(a)", "a.{w}", ":{w}", "{{{w}: a}}", "{w} <= a"] {
                 t.push(form.replace("{w}", &w));
             }
+        }
+        // identifiers that a more permissive literal syntax would claim: digit groups, non-finite floats, exponents, signs
+        for w in ["i1_0", "d2_5", "f1_2", "i1_000", "i1__0", "i18n", "f1_score", "d3_layout", "f64_bits", "i2c", "d20roll", "finf", "fNaN", "fnan", "finfinity", "fInf", "dinf", "iinf", "dNaN",
+                  "f1e", "f1e+", "d1e3", "d1e-3", "i1e3", "f1E5x", "i0x10", "i0b1", "f0x1p3", "d1f", "i1L", "i1u8", "f1f64", "i1i128"] {
+            for form in ["{w}", "{w}(a)", "a.{w}", ":{w}", "{{{w}: a}}", "{w} <= a", "a*{w}-b", "{w}.0"] {
+                t.push(form.replace("{w}", w));
+            }
+        }
+        for s in ["f-inf", "f+inf", "f-NaN", "a*f-inf", "sup-f-inf", "f-info", "f+infra.cost", "d-inf", "i-inf", "f -inf", "f- inf", "f-1e", "f-1e+x", "d-1.x", "i-1_0", "f+.e1", "f-.5e", "i+1-1", "i--1", "f.5.5", "d.5e1"] {
+            t.push(s.to_string());
         }
     }
     for (x, y) in [("=", "=="), ("is_some", "some"), ("is_none", "none"), ("date_time", "datetime"), ("to_upper", "uppercase"), ("to_lower", "lowercase")] {
@@ -669,7 +698,7 @@ pub fn const_shapes() -> Vec<String> {
 }
 
 pub fn rule_stream(rng: &mut Rng, thorough: bool) -> Vec<TextCase> {
-    let comments = ["// name one", "//n", "  // indented name  ", "//", "\t//\tdescr a ", "// descr b", "//  ", "/// triple", "// @name: \"fake\";", "//\u{a0}nbsp\u{2003}", "// a // b"];
+    let comments = ["// name one", "//n", "  // indented name  ", "//", "\t//\tdescr a ", "// descr b", "//  ", "/// triple", "// @name: \"fake\";", "//\u{a0}nbsp\u{2003}", "// a // b", "// sources: src/*.rs", "// and manifests: **/*.toml", "// /* block */ name", "// */ stray", "//\u{feff}bom", "\u{feff}// bom first"];
     let mut metas: Vec<String> = ["@name: \"meta name\";", "@name: i5;", "@description: \"meta descr\";", "@description: i5;", "@k: i1;", "@k: i2;", "@k: a;", "@k: i1 + i2;", "@k: -i1;", "@k: [i1, a];", "@j: \"s\";", "@name: \"second\";", "@k: none;", "@name: [\"x\"];", "@name: a;", "@ k : i1 ;", "@k: i1", "@k i1;", "@: i1;", "@if: i1;", "@K: i1;", "@description: none;", "@description: [\"d\"];", "@k: f(i1);", "@k: (i1);", "@k: if true then i1 else i2;"]
         .iter().map(|s| s.to_string()).collect();
     for (i, c) in const_shapes().iter().enumerate() {
@@ -1061,6 +1090,7 @@ fn rule_vs_expr(prop: &str, rep: &mut Report, workers: usize, thorough: bool, se
     texts.extend(literal_stream(&mut rng, thorough && prop == "C08"));
     for t in ["x * i1", "i1 * x", "x + i0", "x - i0", "x / i1", "x == none", "f(x) != none", "none == x", "if c then true else false", "--x", "!!x", "\"a\rb\"", "\"a\r\nb\"", "a and true", "false or a", "[x * i1, {k: x + i0}]",
         "\"line 1\r\nline 2\"", "\"a\nb\"", "\"a\tb\"", "\"a\u{85}b\"", "\"a\u{2028}b\"", "\"\r\"", "\"\r\n\"", "\"\n\r\"", "[\"a\rb\", \"c\r\nd\"]", "x == \"Main St 1\r\nSpringfield\"", "{k: \"a\r\"}", "\"a\r\" + \"\rb\"", "\" \r \"", "f(\"\r\")", "\"a\\rb\"",
+        "\"first\n\u{feff}second\"", "\"first\r\nsecond\u{feff}\"", "\"\u{feff}\"", "\"a\n\u{feff}\"", "[\"\u{feff}a\", \"b\r\n\u{feff}c\"]", "\"/* not a comment */\"", "\"a /* b\" + \"c */ d\"", "\"// x\n// y\"",
         "[]", "{}", "[i1, i2]", "([i1])", "{low: i1, high: i10}", "[[], {}]", "[\"a\", [i1, {k: none}]]", "{a: [i1], b: {c: f1.5}}", "[true, false, none]", "{z: i1, a: i2, z: i3}"] {
         texts.push(TextCase { text: t.to_string(), tag: "rule-vs-expr" });
     }
